@@ -29,6 +29,15 @@ func init() {
 		})
 	}
 	reg(&PropDef{
+		ID: "C16", Level: "proof", FactsOK: true,
+		LeanModules: []string{"Verif.Properties.C16"},
+		Streams:     []func(*Ctx) StreamResult{readonlyStream.Run, raceStream},
+		Assumptions: []string{
+			"partial: the theorems are about atomic queries over an unchanging state; that no exported method of *Spec writes to shared state is established by the regenerated syntactic effect table (conservative, trusted) and sampled by the race detector; data races below query granularity are a Go-memory-model behaviour the model cannot exhibit",
+			"swag.ToGoName's internal caches (sync.Pool / sync.Once) are library code, covered only by the race detector runs",
+		},
+	})
+	reg(&PropDef{
 		ID: "C20", Level: "proof", FactsOK: true,
 		LeanModules: []string{"Verif.Properties.C20"},
 		Streams:     []func(*Ctx) StreamResult{classifyStream.Run},
